@@ -2,7 +2,7 @@
 
 R7.1 definite assignment over the option lattice: py_simulate_model is interpreted abstractly for
 each of the 128 option combinations {Model|Interface given} x {stochastic} x {delay} x {safe} x
-{volume: False, True, positive number, Volume object} x {return_dataframe}; every feasible path
+{volume: False, True, positive number, zero, negative number, Volume object} x {return_dataframe}; every feasible path
 either raises explicitly or reaches a return with every local defined at each use.
 R7.2 concrete simulator: every class instantiated in a dispatch branch implements the abstract
 slot reached by the py_ wrapper called on it, and the wrapper exists with matching arity.
@@ -20,7 +20,7 @@ from .. import paths, simloop, util
 from ..front import AnalysisError, src
 
 EXPLANATION = __doc__
-ASSUMPTIONS = ['option values outside the stated lattice (e.g. a non-positive numeric volume) are outside the property',
+ASSUMPTIONS = ['option values of other types than the stated ones (flag, number, Volume object) are outside the property',
                'np.allclose on the time grid may return either value; both branches are followed']
 
 
@@ -44,7 +44,7 @@ NUM = 2.5
 
 def lattice():
     for mi, st, de, sa, vo, df in itertools.product(('model', 'interface', 'both', 'neither'), (False, True), (False, True),
-                                                    (False, True), ('off', 'true', 'number', 'object'), (False, True)):
+                                                    (False, True), ('off', 'true', 'number', 'zero', 'negative', 'object'), (False, True)):
         yield {'mi': mi, 'stochastic': st, 'delay': de, 'safe': sa, 'volume': vo, 'return_dataframe': df}
 
 
@@ -60,7 +60,7 @@ def initial_state(c, params):
         'Interface': Obj('CSimInterface') if c['mi'] in ('interface', 'both') else None,
         'stochastic': c['stochastic'], 'delay': c['delay'], 'safe': c['safe'],
         'return_dataframe': c['return_dataframe'],
-        'volume': {'off': False, 'true': True, 'number': NUM, 'object': VOLOBJ}[c['volume']],
+        'volume': {'off': False, 'true': True, 'number': NUM, 'zero': 0.0, 'negative': -NUM, 'object': VOLOBJ}[c['volume']],
     }
     for p in params:
         st.set(p, env.get(p, paths.TOP))
